@@ -1566,7 +1566,7 @@ class Scene:
         aircraft_orient = self._airplanes[aircraft].q
 
         # If the position has changed, then we need to update the geometry
-        if not np.allclose(old_position, aircraft_position) or not np.allclose(old_orient, aircraft_orient):
+        if not np.array_equal(old_position, self._airplanes[aircraft].p_bar) or not np.array_equal(old_orient, aircraft_orient):
             self._perform_geometry_and_atmos_calcs()
 
         # Whatever changed, results stored for the previous state are no longer valid
